@@ -339,7 +339,14 @@ fn window_recovery(rng: &mut Rng, seed: u64, verbose: bool) -> CaseOut {
     let rm: Option<u16> = *rng.pick(&[Some(1u16), Some(1), Some(2), Some(3), Some(8), None, Some(20)]);
     let window = rm.map(|r| r.min(8)).unwrap_or(8) as usize;
     let cfg = CaseCfg { rx: 128, tx: 4096, keepalive: 0, ..CaseCfg::default() };
-    let mut steps = vec![connect_with(SpMode::Force(false), AckMode::Hold, rm.map(|r| vec![Prop::ReceiveMaximum(r)]).unwrap_or_default())];
+    // (half of the connections also announce a Maximum Packet Size well below the arena: a publish
+    // can then be refused for the broker's sake although the arena would hold it)
+    let limit: Option<u32> = if rng.chance(1, 2) { Some(1000) } else { None };
+    let mut cprops = rm.map(|r| vec![Prop::ReceiveMaximum(r)]).unwrap_or_default();
+    if let Some(l) = limit {
+        cprops.push(Prop::MaximumPacketSize(l));
+    }
+    let mut steps = vec![connect_with(SpMode::Force(false), AckMode::Hold, cprops)];
     let rounds = 1 + rng.below(3);
     let mut pid = 0u16;
     let mut ended_by: Vec<String> = Vec::new();
@@ -414,16 +421,19 @@ fn window_recovery(rng: &mut Rng, seed: u64, verbose: bool) -> CaseOut {
     // refill: window + 1 requests with acknowledgements withheld
     let probe_from = steps.len();
     // (every other case: requests that are refused locally - a payload closure that fails, one
-    // that claims more bytes than it wrote, a payload the arena cannot hold - are made when
+    // that claims more bytes than it wrote, a payload the arena cannot hold, a packet above the
+    // broker's Maximum Packet Size - are made when
     // exactly one slot of the window is free: they take none)
     let refused_in_between = rng.chance(1, 2);
     for k in 0..window + 1 {
         if refused_in_between && k + 1 == window {
             for _ in 0..1 + rng.below(2) {
-                let payload = match rng.below(3) {
+                let payload = match rng.below(if limit.is_some() { 5 } else { 3 }) {
                     0 => crate::steps::PayloadSpec::Fail,
                     1 => crate::steps::PayloadSpec::Lie { claim: 5000 },
-                    _ => crate::steps::PayloadSpec::Fill { len: 5000, tag: 0x9100, ascii: false },
+                    2 => crate::steps::PayloadSpec::Fill { len: 5000, tag: 0x9100, ascii: false },
+                    // fits the arena, exceeds the broker's limit
+                    _ => crate::steps::PayloadSpec::Fill { len: 1000 + rng.below(2000), tag: 0x9101, ascii: false },
                 };
                 steps.push(Step::Publish(crate::steps::PubSpec { topic: "refused".into(), payload, qos: 1 + rng.below(2) as u8, retain: false, props: vec![], correlate: None, cancel_at: None }));
             }
